@@ -285,9 +285,9 @@ fn main() {
 
     // ---- random volume
     let opts = || pt::Opts { max_shrink_iters: 60, ..pt::Opts::default() };
-    pt::run(&check, "create-random", check.tier.pick(32, 400), opts(), part1::create_strategy, |c| json!({"part": "create", "case": c}), |c| part1::run_create(&check, c));
-    pt::run(&check, "lib-random", check.tier.pick(32, 400), opts(), part1::lib_strategy, |c| json!({"part": "lib", "case": c}), |c| part1::run_lib(&check, c));
-    pt::run(&check, "status-random", check.tier.pick(160, 3000), opts(), || status_strategy(&tps), part2::case_json, |c| status_property(&check, &tps, c));
+    pt::run(&check, "create-random", check.tier.pick(32, 1500), opts(), part1::create_strategy, |c| json!({"part": "create", "case": c}), |c| part1::run_create(&check, c));
+    pt::run(&check, "lib-random", check.tier.pick(32, 1500), opts(), part1::lib_strategy, |c| json!({"part": "lib", "case": c}), |c| part1::run_lib(&check, c));
+    pt::run(&check, "status-random", check.tier.pick(160, 12000), opts(), || status_strategy(&tps), part2::case_json, |c| status_property(&check, &tps, c));
 
     // ---- essential classes
     for t in &tps {
@@ -321,6 +321,7 @@ fn main() {
         }
         check.set_extra("library_accepts_damaged_input", json!(lenient));
     }
+    check.set_extra("unjudged_library_built_archives", json!(*part1::NOTES.lock().unwrap()));
     check.set_extra("status_matrix", json!(*part2::MATRIX.lock().unwrap()));
     check.set_extra("process_runs", json!(sandbox::RUNS.load(Ordering::Relaxed)));
     check.set_extra("oracle_worker_calls", json!(oracle::ORACLE_CALLS.load(Ordering::Relaxed)));
